@@ -150,7 +150,10 @@ CLAIMED = {
          'single-error syndromes evaluated in the kernel); 3 and 4 substitutions are checked exhaustively by the compiled driver on every run (not a proof). The leaves of bech32.py (polymod, hrp_expand, '
          'verify/create checksum, convertbits) and now the rest of it (bech32_encode, bech32_decode, decode, encode: strings as character lists, possibly-None values '
          'as Options whose use raises TypeError) are re-translated on every run and proved equal to the hand model on all inputs (tier T), so round trip, soundness of '
-         'acceptance and rejection are theorems about the translated bech32.py; the address classes in keys.py are tied by the correspondence run.',
+         'acceptance and rejection are theorems about the translated bech32.py. SegwitAddress._address_to_hash and to_string (the two methods every P2WPKH / P2WSH / P2TR object '
+         'goes through; the network prefix a parameter) are translated too: to_string is the BIP173/350 encoding of the object\'s version and program, _address_to_hash is '
+         'decode with the object\'s version demanded, their round trip returns the identical program for every valid program and generated prefix, and whatever is accepted has the '
+         'prefix, one case and the checksum variant of its version. The constructors\' argument dispatch is tied by the correspondence run.',
          NOTE_COMMON + 'partial: detection of 3-4 substituted characters rests on an exhaustive compiled computation, not on a theorem.',
          'Lean 4 proof over translated source (all of bech32.py) + differential correspondence', '6/C11'),
  'C12': ('Kernel-checked theorems: the five locking-script templates evaluate, through the generated opcode dictionaries and the push-form tie, to the '
